@@ -548,10 +548,6 @@ class PEval(object):
                             continue
                         if self._key_hit(k[1], fl):
                             env.pop(k, None)
-                post = self.callvals.get('post:%s#%d' % (name, nth), self.callvals.get('post:%s' % name))
-                if post:
-                    for pk, pv in post.items():
-                        env[('p', pk)] = pv
                 if inl is not None:
                     rv, evs, back, backv, outvars = inl
                     events.extend(evs)
@@ -581,6 +577,11 @@ class PEval(object):
                             if c is not None:
                                 for k in [k for k in env if k[0] == 'p' and k[1].startswith(c[0])]:
                                     env.pop(k, None)
+                # what the rule says holds after this call (applied last: it also covers objects passed by address)
+                post = self.callvals.get('post:%s#%d' % (name, nth), self.callvals.get('post:%s' % name))
+                if post:
+                    for pk, pv in post.items():
+                        env[('p', pk)] = pv
             elif n.k == 'var' and n.kids:
                 v = self.ev(n.kids[0], env, nid)
                 if v is None:
